@@ -22,7 +22,7 @@ CASE_ALARM_S = 120
 def spec_table(tier):
     out = []
     vks = [["boxed", "lower"], ["upper", "boxed"], ["boxed", "boxed"], ["fixed", "boxed"]]
-    rowsets = [[], [("affine", "ranged")], [("sphere", "upper")], [("bilinear", "eq0")]]
+    rowsets = [[], [("affine", "ranged")], [("sphere", "upper")], [("bilinear", "eq0")], [("affine", "eqoff"), ("sphere", "ranged")]]
     objs = ["qdiag", "logbar", "rosen"] if tier == "quick" else ["qdiag", "logbar", "rosen", "cubic", "exp"]
     for vk in vks:
         for rows in rowsets:
@@ -54,12 +54,24 @@ def cases(tier, seed):
             for sc in (G.scalings_of(spec, (0, 1, 4)) if tier == "thorough" else G.scalings_of(spec, (0, 1))):
                 c = dict(cfg); c["iteration_limit"] = H
                 out.append({"spec": spec, "cfg": c, "sc": sc})
+    # solve() without a start: the default start is the origin projected onto the box (boxes below exclude 0 for some variables)
+    for vk in (["boxed", "lower"], ["upper", "boxed"]):
+        for shift in (1.0, -2.0):
+            sp = S.mk(2, "qdiag", [("affine", "ranged")], vk)
+            sp = dict(sp)
+            sp["var_lb"] = [v + shift if v not in ("inf", "-inf") else v for v in sp["var_lb"]]
+            sp["var_ub"] = [v + shift if v not in ("inf", "-inf") else v for v in sp["var_ub"]]
+            sp["tag"] += f"|shift{shift}|no_x0"
+            for sc in G.scalings_of(sp, (0, 1, 2, 4)):
+                out.append({"spec": sp, "cfg": {"iteration_limit": H}, "sc": sc, "no_x0": True})
     return out
 
 
 def run_case(case):
     from pgfmc.drive.run import outcome_of
 
+    if case.get("no_x0"):
+        case = dict(case); case["spec"] = dict(case["spec"]); case["spec"]["x0"] = None
     ctx = G.execute(case, record=True)
     if ctx.setup_error is not None:
         return {"outcome": "setup:" + type(ctx.setup_error).__name__, "key": None, "violations": [], "stats": {}}
